@@ -164,13 +164,16 @@ class LogsProfile:
             else:
                 txt = render(gen_section(rnd))
                 steps.append({"kind": "damaged", "text": rnd.choice([txt[:rnd.randrange(len(txt))], "logs { \"core.info\" ", "\x00\x01garbage", ""])})
-        plan = {"profile": "logs", "steps": steps, "adv": [rnd.choice([0, 0, 1, 59, 3600, 86399]) for _ in steps]}
+        plan = {"profile": "logs", "steps": steps, "adv": [rnd.choice([0, 0, 1, 59, 3600, 86399]) for _ in steps],
+                # in half of the runs some messages are long: up to and beyond log_vmessage()'s 1023 bytes
+                "long": rnd.randrange(1, 1 << 30) if rnd.random() < 0.5 else 0}
         return plan, self.run(plan, tag)
 
     def run(self, plan, tag):
         res = proto.Result()
         res.extra = {"reloads": 0, "identical_reloads": 0, "failed_reloads": 0, "messages_emitted": 0, "lines_checked": 0,
-                     "entries": 0, "entries_ignored": 0, "emitted_between_signals": 0, "valid_file_rejected": 0, "pairs_routed": 0}
+                     "entries": 0, "entries_ignored": 0, "emitted_between_signals": 0, "valid_file_rejected": 0, "pairs_routed": 0,
+                     "long_messages": 0}
         scratch = H.new_scratch(tag)
         conf = os.path.join(scratch, "iauthd.conf")
         steps = plan["steps"]
@@ -185,12 +188,21 @@ class LogsProfile:
         now = [0]
         died = None
 
+        lr = random.Random(plan.get("long") or 0)
+        texts = {}
+
         def emit_all(rt, label):
             for fac in FACS:
                 for sv in range(5):
                     nonce[0] += 1
                     tok = "nonce%dx" % nonce[0]
-                    h.log(fac, sv, tok)
+                    text = tok
+                    if plan.get("long") and lr.random() < 0.12:
+                        n = lr.choice([200, 500, 900, 960, 980, 990, 1000, 1010, 1022, 1023, 1024, 1025, 1100, 2000, 3500])
+                        text = (tok + " " + "".join(lr.choice("abcdefghijklmnopqrstuvwxyz0123456789 ():[]%") for _ in range(n)))[:n].rstrip(" ") + "."
+                        res.extra["long_messages"] += 1
+                    texts[tok] = text[:1023]        # log_vmessage() formats into a 1024-byte buffer
+                    h.log(fac, sv, text)
                     exp = collections.Counter(rt.get((fac, sv), {}))
                     exp.update(rt.get(("*", sv), {}))
                     emitted.append((tok, fac, sv, exp, now[0]))
@@ -270,7 +282,7 @@ class LogsProfile:
             hb.update(content[f].encode("latin1"))
         res.hash = H.hashlib.sha256((res.hash + hb.hexdigest()).encode()).hexdigest()
         if not viol:
-            viol += self.check_files(content, emitted, res)
+            viol += self.check_files(content, emitted, res, texts)
         res.viol = viol
         res.steps = len(steps)
         res.nontrivial = res.extra["pairs_routed"] > 0 and res.extra["reloads"] > 0
@@ -278,7 +290,7 @@ class LogsProfile:
         shutil.rmtree(scratch, ignore_errors=True)
         return res
 
-    def check_files(self, content, emitted, res):
+    def check_files(self, content, emitted, res, texts=None):
         viol = []
         index = {}      # nonce -> {file: [(ts, fac, sev)]}
         for f in FILES:
@@ -291,9 +303,13 @@ class LogsProfile:
                 if not m:
                     viol.append(Violation(("C18",), "line-format", "file %s holds a line that is not '[time] (facility:severity) text': %r" % (f, ln[:200])))
                     break
-                t = m.group(4)
+                t = m.group(4).split(" ")[0]
                 if t.startswith("nonce") and t.endswith("x"):
                     index.setdefault(t, {}).setdefault(f, []).append((m.group(1), m.group(2), m.group(3)))
+                    if texts is not None and t in texts and m.group(4) != texts[t]:
+                        viol.append(Violation(("C18",), "incomplete-line", "file %s: message %s was written as %d bytes %r..., emitted (cut at the "
+                                              "1023-byte message buffer) as %d bytes" % (f, t, len(m.group(4)), m.group(4)[-40:], len(texts[t]))))
+                        break
         if viol:
             return viol
         for tok, fac, sv, exp, at in emitted:
